@@ -21,6 +21,8 @@ mod rng;
 mod server;
 mod symbol_def;
 mod utils;
+#[cfg(parol_verif)]
+mod verif;
 
 extern crate clap;
 extern crate parol_runtime;
@@ -97,6 +99,11 @@ fn main() -> Result<(), Box<dyn Error>> {
     debug!("env logger started");
 
     let args = Arguments::parse();
+    #[cfg(parol_verif)]
+    if verif::batch_mode_requested() {
+        verif::run_batch();
+        return Ok(());
+    }
     eprintln!("Starting parol language server");
 
     let (connection, io_threads) = if args.stdio {
@@ -214,6 +221,10 @@ fn process_notification(
     server: &RefCell<Server>,
 ) -> Result<(), Box<dyn Error>> {
     eprintln!("got notification: {not:?}");
+    #[cfg(parol_verif)]
+    if verif::handle_notification(&not) {
+        return Ok(());
+    }
     match not.method.as_str() {
         DidOpenTextDocument::METHOD => server.borrow_mut().handle_open_document(connection, not)?,
         DidChangeTextDocument::METHOD => server
